@@ -42,6 +42,9 @@ Extract == /\ pc = "extract"
 Next == Fill \/ Extract
 Spec == Init /\ [][Next]_vars
 
+(* the pad as piecewise-linear arithmetic: the form in which spec/apalache/MC_Lorenz.tla proves the identity for EVERY N *)
+PadSample(m, p) == IF m = 1 THEN 0 ELSE IF p < m - 1 THEN p + 1 ELSE IF p < 2 * m - 1 THEN p - (m - 1) ELSE p - (2 * m - 1)
+PadSampleAgrees == \A p \in 0..(Len(Pad(n)) - 1) : At(Pad(n), p) = PadSample(n, p)
 IndexInRange == pc = "fill" => Idx \in 0..(Len(Pad(n)) - 1)
 PadLength == Len(Pad(n)) = IF n = 1 THEN 2 ELSE 3 * n - 2          \* for n = 1 the first slice s[-0:] is the whole signal
 Circulant == pc = "extract" => entry = (i - j) % n
